@@ -221,6 +221,12 @@ def run_expo(ctx, doubles):
             buckets = [(utils_go(b), float(j + 1), Exemplar({'t': 'x'}, b)) for j, b in enumerate(bounds)]
             buckets.append(('+Inf', float(len(bounds) + 1), None))
             fams.append(HistogramMetricFamily('h', 'hist', buckets=[(b, c, e) for b, c, e in buckets], sum_value=1.0))
+        # exemplar values of every class (±Inf, NaN, big, small), with and without an exemplar timestamp, on counter samples
+        cf = CounterMetricFamily('e', 'exemplars', labels=['i'])
+        exvals = [d for d in batch[:12]]
+        for k, d in enumerate(exvals):
+            cf.add_metric([str(k)], 1.0, exemplar=Exemplar({'t': 'x'}, d, 1.5 if k % 2 else None))
+        fams.append(cf)
         reg = CollectorRegistry(); reg.register(Coll(fams))
         for fmt, gen in (('text', generate_latest), ('om', om.generate_latest)):
             try:
@@ -249,19 +255,30 @@ def run_expo(ctx, doubles):
                     ctx.fail('C13:expo-inexact', '%s exposition renders sample value %r (bits %016x) as %r, which parses back to %r — in a scrape that also holds %s'
                              % (fmt, d, lib.bits_of(d), tok, back, [repr(x) for x in batch if x == d and lib.bits_of(x) != lib.bits_of(d)][:2]),
                              {'bits_list': [lib.bits_of(x) for x in batch], 'fmt': fmt, 'index': k})
+            if fmt == 'om':
+                for ln in lines:
+                    if ln.startswith('e_total{i="') and ' # {' in ln:
+                        k = int(ln[11:ln.index('"', 11)])
+                        ev = ln.split(' # {', 1)[1].split('} ', 1)[1].split(' ')[0]
+                        why = oracle(exvals[k], ev) if k < len(exvals) else None
+                        if why:
+                            ctx.fail('C13:expo-exemplar-inexact', 'om exposition renders exemplar value %r as %r: %s' % (exvals[k], ev, why),
+                                     {'bits_list': [lib.bits_of(x) for x in batch], 'fmt': fmt})
             # le labels and exemplar values of the histogram family
             for ln in lines:
                 if ln.startswith('h_bucket{le="') and '+Inf' not in ln.split('}')[0]:
                     le = ln[13:ln.index('"', 13)]
                     j = int(float(ln.split('} ', 1)[1].split(' ')[0])) - 1
-                    if 0 <= j < len(bounds) and lib.bits_of(float(le)) != lib.bits_of(bounds[j]):
-                        ctx.fail('C13:expo-le-inexact', '%s exposition renders le bound %r as %r' % (fmt, bounds[j], le),
+                    if 0 <= j < len(bounds) and oracle(bounds[j], le):
+                        ctx.fail('C13:expo-le-inexact', '%s exposition renders le bound %r as %r: %s' % (fmt, bounds[j], le, oracle(bounds[j], le)),
                                  {'bits_list': [lib.bits_of(x) for x in batch], 'fmt': fmt})
                     if fmt == 'om' and ' # {' in ln:
                         ev = ln.split(' # {', 1)[1].split('} ', 1)[1].split(' ')[0]
-                        if 0 <= j < len(bounds) and lib.bits_of(float(ev)) != lib.bits_of(bounds[j]):
-                            ctx.fail('C13:expo-exemplar-inexact', 'om exposition renders exemplar value %r as %r' % (bounds[j], ev),
-                                     {'bits_list': [lib.bits_of(x) for x in batch], 'fmt': fmt})
+                        if 0 <= j < len(bounds):
+                            why = oracle(bounds[j], ev)
+                            if why:
+                                ctx.fail('C13:expo-exemplar-inexact', 'om exposition renders exemplar value %r as %r: %s' % (bounds[j], ev, why),
+                                         {'bits_list': [lib.bits_of(x) for x in batch], 'fmt': fmt})
             reqs.append('expo %s %s' % (fmt, famcodec.enc_families(fams)))
             expect.append((fmt, out, [lib.bits_of(x) for x in batch]))
     replies = ctx.driver.run(reqs)
